@@ -70,6 +70,22 @@ func runC01(c *rules.Ctx) {
 	const CI = K + "collectIncentives"
 	c.CheckedCallOpt(CI, "cltypes.BankKeeper.SendCoins", []string{"k.bankKeeper", "ctx", "cltypes.ConcentratedPoolExtension.GetIncentivesAddress(_)", "sender", "cl.Keeper.prepareClaimAllIncentivesForPosition(k,ctx,cl.Keeper.GetPosition(k,ctx,positionId)#0.PositionId)#0"}, "incentives: exactly the collected (never the forfeited) part is paid from the incentive account to the claimer", "", false)
 	c.FailsWhen(CI, "ne(sdk.AccAddress.String(sender), cl.Keeper.GetPosition(k,ctx,positionId)#0.Address)", "only the position owner collects incentives", rules.GuardOpt{Before: "cl.Keeper.prepareClaimAllIncentivesForPosition|cltypes.BankKeeper.SendCoins"})
+	// ---- swap totals (shared with C03): charged amounts are ceiled, paid amounts truncated
+	swapTotalRules(c)
+	// ---- incentive records: an exhausted record is removed, only records with something left are written
+	const SI = K + "setIncentiveRecord"
+	c.Let("IKEY", "cltypes.KeyIncentiveRecord(incentiveRecord.PoolId,cl.findUptimeIndex(incentiveRecord.MinUptime)#0,incentiveRecord.IncentiveId)")
+	c.Let("ISTORE", "sdk.Context.KVStore(ctx,k.storeKey)")
+	c.CallArg(SI, "storetypes.KVStore.Delete", 1, "{IKEY}", "the record deleted is the one being set")
+	c.OnlyWhen(SI, "storetypes.KVStore.Delete", "storetypes.KVStore.Has({ISTORE},{IKEY}) & sdk.DecCoin.IsZero(incentiveRecord.IncentiveRecordBody.RemainingCoin)", "a record is deleted only when it exists and nothing remains to emit")
+	c.ReachedWhen(SI, "storetypes.KVStore.Delete", "storetypes.KVStore.Has({ISTORE},{IKEY}) & sdk.DecCoin.IsZero(incentiveRecord.IncentiveRecordBody.RemainingCoin)", "an existing record with nothing left is always deleted (it cannot be emitted again)")
+	c.OnlyWhen(SI, "osmoutils.MustSet", "sdkmath.LegacyDec.IsPositive(incentiveRecord.IncentiveRecordBody.RemainingCoin.Amount)", "only a record with a positive remainder is written")
+	c.CallArg(SI, "osmoutils.MustSet", 1, "{IKEY}", "…under its own key")
+	// ---- dust re-deposit divides by the remaining shares only when there are some
+	const PC = K + "prepareClaimableSpreadRewards"
+	c.Let("SHARES", "accum.AccumulatorObject.GetTotalShares(cl.Keeper.GetSpreadRewardAccumulator(k,ctx,cl.Keeper.GetPosition(k,ctx,positionId)#0.PoolId)#0)")
+	c.CallArg(PC, "sdk.DecCoins.QuoDecTruncate", 1, "{SHARES}", "forfeited dust is spread over the shares that remain after the claim")
+	c.OnlyWhen(PC, "sdk.DecCoins.QuoDecTruncate", "not(sdkmath.LegacyDec.IsZero({SHARES}))", "the division by the remaining shares happens only when shares remain (the last position can always exit)")
 	// ---- who may send from pool-owned accounts
 	c.SendersFrom("x/concentrated-liquidity", "cltypes.BankKeeper.SendCoins", 2, []string{"GetAddress", "GetSpreadRewardsAddress", "GetIncentivesAddress"},
 		[]string{"cl.Keeper.sendCoinsBetweenPoolAndUser", "cl.Keeper.updatePoolForSwap", "cl.Keeper.collectSpreadRewards", "cl.Keeper.collectIncentives", "cl.Keeper.redepositForfeitedIncentives", "cl.Keeper.WithdrawPosition", "cl.Keeper.CreatePosition"},
